@@ -14,6 +14,7 @@ PAYLOADS = [
     ("deps", {"dependencies": {"a": ["b"], "c": {"required": ["d"]}}, "maxProperties": 4}),
     ("literals", {"properties": {"k": {"enum": [1, True, "1", None]}, "c": {"const": {"a": [1, True]}}}, "default": {"k": 1}}),
     ("union", {"properties": {"u": {"type": ["integer", "string"], "minimum": 1}, "v": {"anyOf": [{"type": "integer"}, {"type": "array", "items": {"type": "string"}}]}}}),
+    ("compat-names", {"properties": {"\ufb01le": {"type": "string"}, "\uff2b": {"type": "integer"}, "\u00b5": {"type": "null"}}, "required": ["\ufb01le"], "additionalProperties": False}),
     ("bare-list", {"properties": {"l": {"type": "array"}, "m": {"type": "array", "items": [{"type": "integer"}, {"type": "string"}]}}}),
 ]
 DESCRIPTIONS = [None, "plain description", 'with "quotes" and \\ backslash', "two\nlines"]
@@ -48,6 +49,11 @@ def ref_shapes():
     S.append(("cross-file", lambda P, Q, T: ({**obj({}, t(T, 0)), "properties": {"r": {"$ref": "other.json#/definitions/p"}, "l": obj(Q, t(T, 2))}}, {"other.json": {"definitions": {"p": obj(P, t(T, 1))}}})))
     S.append(("cross-file-back", lambda P, Q, T: ({**obj({}, t(T, 0)), "properties": {"r": {"$ref": "other.json#/definitions/p"}}, "definitions": {"home": obj(Q, t(T, 2))}}, {"other.json": {"definitions": {"p": {**obj({}, t(T, 1)), "properties": {"h": {"$ref": "root.json#/definitions/home"}}}}}})))
     S.append(("composition-objects", lambda P, Q, T: ({"type": "object", **({"title": T[0]} if T else {}), "anyOf": [obj(P, t(T, 1))], "oneOf": [obj(Q, t(T, 2)), {"type": "null"}], "allOf": [obj({}, t(T, 1))]}, None)))
+    # two differently titled objects of identical shape, each reachable only through an otherwise equal wrapper
+    S.append(("equal-wrappers", lambda P, Q, T: ({**obj({}, t(T, 0)), "properties": {
+        "xs": {"type": "array", "items": obj(P, t(T, 1) or "Cat")}, "ys": {"type": "array", "items": obj(P, t(T, 2) or "Dog")},
+        "xo": {"anyOf": [obj(Q, "Left"), {"type": "null"}]}, "yo": {"anyOf": [obj(Q, "Right"), {"type": "null"}]},
+    }}, None)))
     # two objects with ONE title that differ only in a bool-vs-number literal / in a nested default: must stay two classes
     S.append(("lookalike-twins", lambda P, Q, T: ({**obj({}, t(T, 0)), "properties": {
         "one": {**obj(P, "Twin"), "properties": {**P.get("properties", {}), "k": {"const": 1}, "d": {"default": [0]}}},
